@@ -120,7 +120,10 @@ def gen(rng, tier, index):
             pattern_active = False
         # 'keep': the time register keeps its value
         st['raw'] = raw
-        what = rng.choice(['cmd', 'cmd', 'cmd2', 'and', 'wait_cmd', 'get'])
+        what = rng.choice(['cmd', 'cmd', 'cmd2', 'and', 'wait_cmd', 'get',
+                           'loop'])
+        if what == 'loop':
+            st['n'] = rng.choice([2, 3])
         if 'at' in st:
             what = rng.choice(['cmd', 'and'])
         st['what'] = what
@@ -131,7 +134,8 @@ def gen(rng, tier, index):
         if kind == 'zero':
             cur_d = 0
         if 'at' not in st:
-            n_waits = 2 if what in ('cmd2', 'wait_cmd') else 1
+            n_waits = 2 if what in ('cmd2', 'wait_cmd') else \
+                st.get('n', 1)
             est += n_waits * (cur_d + 2 * tick) if cur_d else 0
             budget_ticks -= (n_waits - 1) * int(cur_d / tick)
             if what == 'get':
@@ -199,6 +203,16 @@ def build_script(sc):
         elif what == 'and':
             t = cmd('"Top" and "Lamp"', [0, 1])
             w = add_wait(t, [0, 1])
+        elif what == 'loop':
+            # the same WAIT + command executed n times
+            tag += 1
+            lines.append('repeat {} begin kelvin {} set "Top" end'.format(
+                st['n'], 1500 + tag))
+            first = None
+            for _ in range(st['n']):
+                w = add_wait(tag, [0])
+                first = first or w
+            w = first       # a send stall hits the first datagram of the tag
         elif what == 'wait_cmd':
             lines.append('wait')
             add_wait(None, [])
@@ -366,6 +380,9 @@ def execute(scenario, chooser):
         return res
     if st['net'] is not None:
         res['faults'] = dict(st['net'].fired)
+    res['faults']['stall'] = sim.stats.get('stall', 0)
+    res['faults']['spin_advance'] = sim.stats.get('spin_advance', 0)
+    res['faults']['thread_preemption'] = sim.switches
     judge(sc, text, waits, rec, sim, st, start_dt, violation, probes, res)
     return res
 
@@ -424,6 +441,7 @@ def judge(sc, text, waits, rec, sim, st, start_dt, violation, probes, res):
     prev_cmd_time = None
     prev_wait_kind = None
     blocked_any = False
+    used = {}
     for wi, w in enumerate(waits):
         where = 'wait #{} ({} {})'.format(wi + 1, w['kind'], w['val'])
         if w['kind'] == 'd' and w['val'] > 0:
@@ -582,7 +600,12 @@ def judge(sc, text, waits, rec, sim, st, start_dt, violation, probes, res):
         # the command that follows must not reach its device before the wait
         # allows it
         if w['tag'] is not None:
-            got = by_tag.get(1500 + w['tag'], [])
+            pool = by_tag.get(1500 + w['tag'], [])
+            k0 = used.get(w['tag'], 0)
+            last_of_tag = not any(x['tag'] == w['tag']
+                                  for x in waits[wi + 1:])
+            got = pool[k0:] if last_of_tag else pool[k0:k0 + len(w['devs'])]
+            used[w['tag']] = k0 + len(got)
             devs = sorted(x[2] for x in got)
             if devs != sorted(w['devs']):
                 violation('command-missing',
